@@ -263,7 +263,13 @@ func (e *SpecEnv) selectField(x TV, name string) TV {
 		if _, isPtr := r.Ty.Underlying().(*types.Pointer); isPtr && !strings.Contains(r.T, "?") {
 			// every reference stored in a heap array is older than that array version
 			if b, ok := vc.arrBound[ver]; ok && b != "" {
-				vc.assume(fmt.Sprintf("(and (>= %s 0) (< %s %s))", r.T, r.T, b))
+				// (only for objects that existed when that version came into being: a
+				// callee under a pure/modifies contract may have allocated x since, and
+				// its fields then hold whatever the callee put there)
+				vc.assume(fmt.Sprintf("(=> (< %s %s) (and (>= %s 0) (< %s %s)))", x.T, b, r.T, r.T, b))
+				if cur := e.curHeap().alloc; cur != "" {
+					vc.assume(fmt.Sprintf("(and (>= %s 0) (< %s %s))", r.T, r.T, cur))
+				}
 			} else if strings.HasSuffix(ver, "@stable|") {
 				// set-once field: an object that existed at entry got its value before entry
 				vc.assume(fmt.Sprintf("(=> (< %s alloc0) (and (>= %s 0) (< %s alloc0)))", x.T, r.T, r.T))
@@ -710,6 +716,11 @@ func (e *SpecEnv) call(n *ast.CallExpr) TV {
 			return TV{T: "(ipay " + v.T + ")", Ty: types.NewPointer(types.NewStruct(nil, nil))}
 		}
 		return TV{T: v.T, Ty: types.NewPointer(types.NewStruct(nil, nil))}
+	case "runeAt":
+		// runeAt(s, i): the i-th rune of string s, as []rune(s)[i] in the code
+		sv, iv := arg(0), e.coerce(arg(1), tInt)
+		runes := vc.uf("str_runes", []string{sStr}, "(Array (_ BitVec 64) (_ BitVec 32))", sv.T)
+		return TV{T: fmt.Sprintf("(select %s %s)", runes, iv.T), Ty: types.Typ[types.Int32]}
 	case "tag":
 		return TV{T: "(itag " + arg(0).T + ")", Ty: types.NewPointer(types.NewStruct(nil, nil))}
 	}
